@@ -690,6 +690,41 @@ def _diff(expect, got):
     return 'expected %d, got %d; at #%d expected %s got %s%s' % (len(expect), len(got), k, d(e), d(g), extra)
 
 
+def _validate(spec):
+    def key_ok(k):
+        return isinstance(k, list) and len(k) == 4 and all(isinstance(x, int) and 0 <= x <= 255 for x in k)
+
+    def ints(*xs):
+        return all(isinstance(x, int) and not isinstance(x, bool) for x in xs)
+
+    if spec.get('mode') not in ('server', 'client') or not isinstance(spec.get('ops'), list) or not isinstance(spec.get('cuts'), list):
+        raise ValueError('malformed C17 spec')
+    for c in spec['cuts']:
+        if not (isinstance(c, list) and len(c) == 3 and ints(*c)):
+            raise ValueError('malformed cut %r' % (c,))
+    arity = {'msg': 7, 'ping': 4, 'pong': 4, 'pclose': 3, 'send': 4, 'lclose': 1, 'other': 2}
+    for op in spec['ops']:
+        if not (isinstance(op, list) and op and op[0] in arity and len(op) == arity[op[0]]):
+            raise ValueError('malformed op %r' % (op,))
+        t = op[0]
+        ok = True
+        if t == 'msg':
+            ok = (op[1] in ('t', 'b') and ints(op[2], op[3]) and isinstance(op[4], list) and ints(*op[4])
+                  and isinstance(op[5], list) and key_ok(op[6])
+                  and all(isinstance(i, list) and len(i) == 4 and ints(i[0], i[2], i[3])
+                          and i[1] in ('ping', 'pong', 'send', 'pclose', 'lclose') for i in op[5]))
+        elif t in ('ping', 'pong'):
+            ok = ints(op[1], op[2]) and key_ok(op[3])
+        elif t == 'pclose':
+            ok = ints(op[1]) and key_ok(op[2])
+        elif t == 'send':
+            ok = op[1] in ('t', 'b') and ints(op[2], op[3])
+        elif t == 'other':
+            ok = ints(op[1])
+        if not ok:
+            raise ValueError('malformed op %r' % (op,))
+
+
 # --------------------------------------------------------------------------- Prop
 class C17(Prop):
     id = 'C17'
@@ -700,6 +735,9 @@ class C17(Prop):
             'first read optionally through the constructor); each timeline is delivered in one piece, byte-wise '
             'through every header, in 4096 byte reads, with a generated multi-cut, and (stream <= %d bytes) with '
             'every single cut and byte by byte; expectations come from an independent RFC 6455 encoder/decoder. '
+            'exhaustive_subdomain = grid of every listed length x text/binary x server/client/client-constructor x '
+            '{1 frame, 2 fragments with a ping between, 3 fragments} plus an application write of the same length, '
+            'each with all of these deliveries. '
             'non-trivial = some delivery cuts a frame inside its header (2 byte header, extended length or '
             'masking key) of a frame whose header is longer than 2 bytes, or a ping/pong sits between the '
             'fragments of a message; distinct = distinct spec hash' % SHORT)
@@ -751,8 +789,8 @@ class C17(Prop):
         })
 
     # ------------------------------------------------------------------ thorough: atheris campaign
-    FUZZ_PROCS = 16
-    FUZZ_RUNS = 12000
+    FUZZ_PROCS = int(os.environ.get('C17_FUZZ_PROCS', '16'))
+    FUZZ_RUNS = int(os.environ.get('C17_FUZZ_RUNS', '12000'))
 
     def enumerate(self, tier):
         """The finite grid (see grid()). In the thorough tier the coverage-guided campaign
@@ -861,7 +899,14 @@ class C17(Prop):
                     out.append(('single', [c]))
         return out
 
+    def normalize(self, spec):
+        """The runner's structural shrinker deletes list elements anywhere; ops, keys and cuts have a fixed
+        arity, so a candidate that lost a field is rejected (ValueError) instead of being misread."""
+        _validate(spec)
+        return spec
+
     def execute(self, spec):
+        _validate(spec)
         spec = dict(spec)
         if spec['mode'] != 'client':
             spec['init'] = False
